@@ -1,4 +1,49 @@
-From KS Require Import lib.Base lib.Strings model.MetaStore.
+(* C40 — The ops MCP tools never change cluster state.
+   Only statements closed by [exact]; proofs live in proofs/MetaStoreProofs.v.
+   gen/McpCalls.v is regenerated from internal/mcpserver on every run. *)
+From Coq Require Import String.
+From KS Require Import lib.Base lib.Strings model.MetaStore gen.McpCalls proofs.MetaStoreProofs.
 Open Scope Z_scope.
-Example C40_nonvacuous : True.
-Proof. exact I. Qed.
+
+(* (1) finite, over the regenerated table: every store method reachable from any
+       registered tool handler is one of the read-only methods *)
+Theorem C40_calls_readonly :
+  forallb (fun e => forallb readonly_method (snd e)) mcp_calls = true.
+Proof. exact mcp_calls_readonly. Qed.
+Print Assumptions C40_calls_readonly.
+
+(* (2) a read-only method leaves the store state as it is, in both store models,
+       for every state and every argument *)
+Theorem C40_reads_preserve_state : forall o,
+  readonly_method (method_of o) = true ->
+  (forall s, fst (im_step s o) = s) /\ (forall s, fst (et_step s o) = s).
+Proof. intros o H. split; intros s; [now apply im_readonly_preserves|now apply et_readonly_preserves]. Qed.
+Print Assumptions C40_reads_preserve_state.
+
+(* (3) a tool, as ANY adaptive program over the store (each call may depend on all
+       earlier answers, any number of calls) that only uses the methods listed for it,
+       ends in the state it started from — in-memory and etcd store models *)
+Theorem C40_tools_preserve_state : forall tool fuel p,
+  (forall s, prog_methods_ok (tool_allowed tool) fuel p s -> im_exec fuel p s = s) /\
+  (forall s, et_prog_methods_ok (tool_allowed tool) fuel p s -> et_exec fuel p s = s).
+Proof.
+  intros tool fuel p. split; intros s H.
+  - exact (im_prog_preserves _ fuel (tool_allowed_readonly tool) p s H).
+  - exact (et_prog_preserves _ fuel (tool_allowed_readonly tool) p s H).
+Qed.
+Print Assumptions C40_tools_preserve_state.
+
+(* non-vacuity: the table is not empty, fetch_offsets is a two-call adaptive program
+   that is allowed, and a mutating method is not allowed for any tool *)
+Example C40_nonvacuous :
+  negb (Nat.eqb (length mcp_calls) 0) = true /\
+  tool_allowed (lit "fetch_offsets") M_Metadata = true /\
+  tool_allowed (lit "fetch_offsets") M_FetchConsumerOffset = true /\
+  forallb (fun e => negb (tool_allowed (fst e) M_DeleteTopic) && negb (tool_allowed (fst e) M_CommitConsumerOffset)) mcp_calls = true /\
+  let s := fst (im_run (im_new 1) [OCreateTopic (lit "orders") 2 1; OCommit (lit "g") (lit "orders") 1 5 []]) in
+  let p := Call (OMetadata []) (fun r => match r with
+             | RMeta ((t, _, _) :: _) => Call (OFetchOffset (lit "g") t 1) (fun _ => Done)
+             | _ => Done end) in
+  prog_methods_ok (tool_allowed (lit "fetch_offsets")) 5 p s /\ im_exec 5 p s = s /\
+  fst (im_step s (ODeleteTopic (lit "orders"))) <> s.
+Proof. vm_compute. repeat split; try reflexivity. intros H. discriminate. Qed.
